@@ -1,1 +1,135 @@
-import M4riProofs.WordLemmas
+/-
+  C13 — Row/column operations and permutation application follow LAPACK swap semantics.
+  Property theorems only; every statement is about the executable model of mzd.h / mzp.c in M4ri/Mzd.lean
+  (tied to /repo by the correspondence run). One `bit` equation per operation covers: the addressed entries,
+  every other entry, and the excess bits of the last word (which belong to the parent of a window).
+-/
+import M4riProofs.W.RowCol
+import M4riProofs.W.Perm
+namespace M4ri.Props.C13
+open M4ri M4ri.Mzd
+
+/-- row swap: rows `a`,`b` exchanged, nothing else (incl. excess bits) changes -/
+theorem row_swap (M : Mzd) (a b : Nat) (h : M.WF) (ha : a < M.nrows) (hb : b < M.nrows)
+    (i j : Nat) (hi : i < M.nrows) (hj : j < 64 * M.width) :
+    (M.rowSwap a b).bit i j = if j < M.ncols then M.bit (swapIdx a b i) j else M.bit i j :=
+  rowSwap_bit M a b h ha hb i j hi hj
+
+/-- column swap, optionally restricted to a row range -/
+theorem col_swap_in_rows (M : Mzd) (cola colb startRow stopRow : Nat) (h : M.WF)
+    (ha : cola < M.ncols) (hb : colb < M.ncols) (i j : Nat) :
+    (M.colSwapInRows cola colb startRow stopRow).bit i j =
+      if startRow ≤ i ∧ i < stopRow then
+        (if j = cola then M.bit i colb else if j = colb then M.bit i cola else M.bit i j)
+      else M.bit i j :=
+  colSwapInRows_bit M cola colb startRow stopRow h ha hb i j
+
+/-- adding one row to another from a given column on -/
+theorem row_add_offset (M : Mzd) (dst src off : Nat) (h : M.WF) (hne : dst ≠ src)
+    (hd : dst < M.nrows) (hs : src < M.nrows) (hc : off < M.ncols) (i j : Nat) :
+    (M.rowAddOffset dst src off).bit i j =
+      if i = dst ∧ off ≤ j ∧ j < M.ncols then (M.bit dst j != M.bit src j) else M.bit i j :=
+  rowAddOffset_bit M dst src off h hne hd hs hc i j
+
+/-- clearing a row from a given column on -/
+theorem row_clear_offset (M : Mzd) (row off : Nat) (h : M.WF) (hr : row < M.nrows) (hc : off < M.ncols)
+    (i j : Nat) :
+    (M.rowClearOffset row off).bit i j = if i = row ∧ off ≤ j ∧ j < M.ncols then false else M.bit i j :=
+  rowClearOffset_bit M row off h hr hc i j
+
+/-- bit-range read -/
+theorem read_bits (M : Mzd) (x y n : Nat) (hn : n ≤ 64) (k : Nat) :
+    (M.readBits x y n).getLsbD k = if k < n then M.bit x (y + k) else false :=
+  readBits_getLsbD M x y n hn k
+
+/-- bit-range xor -/
+theorem xor_bits (M : Mzd) (x y n : Nat) (v : Word) (h : M.WF) (hx : x < M.nrows) (hn : n ≤ 64)
+    (hy : y + n ≤ M.ncols) (hv : ∀ k, n ≤ k → v.getLsbD k = false) (i j : Nat) :
+    (M.xorBits x y n v).bit i j =
+      if i = x ∧ y ≤ j ∧ j < y + n then (M.bit i j != v.getLsbD (j - y)) else M.bit i j :=
+  xorBits_bit M x y n v h hx hn hy hv i j
+
+/-- bit-range clear -/
+theorem clear_bits (M : Mzd) (x y n : Nat) (h : M.WF) (hx : x < M.nrows) (hn : n ≤ 64)
+    (hy : y + n ≤ M.ncols) (i j : Nat) :
+    (M.clearBits x y n).bit i j = if i = x ∧ y ≤ j ∧ j < y + n then false else M.bit i j :=
+  clearBits_bit M x y n h hx hn hy i j
+
+/-- left application = the row swaps `k ↔ P[k]` for ascending `k` -/
+theorem apply_p_left (A : Mzd) (P : Array Nat) (h : A.WF)
+    (hP : ∀ k, k < min P.size A.nrows → P.getD k 0 < A.nrows)
+    (i j : Nat) (hi : i < A.nrows) (hj : j < 64 * A.width) :
+    (A.applyPLeft P).bit i j =
+      if j < A.ncols then A.bit (swapsIdx (pSwaps P (min P.size A.nrows)) i) j else A.bit i j :=
+  applyPLeft_bit A P h hP i j hi hj
+
+/-- transposed left application = the same swaps for descending `k` -/
+theorem apply_p_left_trans (A : Mzd) (P : Array Nat) (h : A.WF)
+    (hP : ∀ k, k < min P.size A.nrows → P.getD k 0 < A.nrows)
+    (i j : Nat) (hi : i < A.nrows) (hj : j < 64 * A.width) :
+    (A.applyPLeftTrans P).bit i j =
+      if j < A.ncols then A.bit (swapsIdx (pSwaps P (min P.size A.nrows)).reverse i) j else A.bit i j :=
+  applyPLeftTrans_bit A P h hP i j hi hj
+
+/-- right application = the column swaps for descending `k` (whole matrix: rows 0..nrows) -/
+theorem apply_p_right (A : Mzd) (P : Array Nat) (h : A.WF)
+    (hP : ∀ k, k < min P.size A.ncols → P.getD k 0 < A.ncols) :
+    A.applyPRight P = A.colSwaps (pSwaps P (min P.size A.ncols)).reverse 0 A.nrows :=
+  applyPRight_eq_colSwaps A P h hP
+
+/-- transposed right application = the column swaps for ascending `k` -/
+theorem apply_p_right_trans (A : Mzd) (P : Array Nat) (h : A.WF)
+    (hP : ∀ k, k < min P.size A.ncols → P.getD k 0 < A.ncols) :
+    A.applyPRightTrans P = A.colSwaps (pSwaps P (min P.size A.ncols)) 0 A.nrows :=
+  applyPRightTrans_eq_colSwaps A P h hP
+
+/-- meaning of a column swap sequence: column `j` of the result is column `σ j` of the input -/
+theorem col_swaps_meaning (M : Mzd) (l : List (Nat × Nat)) (s e : Nat) (h : M.WF)
+    (hl : ∀ p ∈ l, p.1 < M.ncols ∧ p.2 < M.ncols)
+    (i j : Nat) (hi : i < M.nrows) (hj : j < 64 * M.width) :
+    (M.colSwaps l s e).bit i j =
+      if s ≤ i ∧ i < e ∧ j < M.ncols then M.bit i (swapsIdx l j) else M.bit i j :=
+  colSwaps_bit M l s e h hl i j hi hj
+
+/-- each application is undone by its transposed counterpart (all four orders) -/
+theorem left_trans_undoes_left (A : Mzd) (P : Array Nat) (h : A.WF)
+    (hP : ∀ k, k < min P.size A.nrows → P.getD k 0 < A.nrows) :
+    (A.applyPLeft P).applyPLeftTrans P = A := applyPLeftTrans_applyPLeft A P h hP
+theorem left_undoes_left_trans (A : Mzd) (P : Array Nat) (h : A.WF)
+    (hP : ∀ k, k < min P.size A.nrows → P.getD k 0 < A.nrows) :
+    (A.applyPLeftTrans P).applyPLeft P = A := applyPLeft_applyPLeftTrans A P h hP
+theorem right_trans_undoes_right (A : Mzd) (P : Array Nat) (h : A.WF)
+    (hP : ∀ k, k < min P.size A.ncols → P.getD k 0 < A.ncols) :
+    (A.applyPRight P).applyPRightTrans P = A := applyPRightTrans_applyPRight A P h hP
+theorem right_undoes_right_trans (A : Mzd) (P : Array Nat) (h : A.WF)
+    (hP : ∀ k, k < min P.size A.ncols → P.getD k 0 < A.ncols) :
+    (A.applyPRightTrans P).applyPRight P = A := applyPRight_applyPRightTrans A P h hP
+
+/-- the capped variants: rows `≥ startRow`, swaps from `startCol` on -/
+theorem apply_p_right_even (A : Mzd) (P : Array Nat) (startRow startCol : Nat) (notrans : Bool)
+    (h : A.WF) (hP : ∀ k, k < min P.size A.ncols → P.getD k 0 < A.ncols)
+    (i j : Nat) (hi : i < A.nrows) (hj : j < 64 * A.width) :
+    (A.applyPRightEven P startRow startCol notrans).bit i j =
+      if startRow ≤ i ∧ j < A.ncols then
+        A.bit i (swapsIdx (pRightSwaps P A.ncols startCol notrans) j)
+      else A.bit i j :=
+  applyPRightEven_bit A P startRow startCol notrans h hP i j hi hj
+
+/-- the 'triangular' transposed right application performs swap `k` only on the rows above row `k` -/
+theorem apply_p_right_trans_tri (A : Mzd) (P : Array Nat) (h : A.WF)
+    (hP : ∀ k, k < A.ncols → P.getD k 0 < A.ncols)
+    (i j : Nat) (hi : i < A.nrows) (hj : j < 64 * A.width) :
+    (A.applyPRightTransTri P).bit i j =
+      if j < A.ncols then
+        A.bit i (swapsIdx ((List.range' (i + 1) (A.ncols - (i + 1))).map fun k => (k, P.getD k 0)) j)
+      else A.bit i j :=
+  applyPRightTransTri_bit A P h hP i j hi hj
+
+/-- non-vacuity: the hypotheses are met by a 2×70 view whose excess bits are all ones and `P = [1, 1]` -/
+example : exM.WF ∧ (∀ k, k < min (#[1, 1] : Array Nat).size exM.nrows → (#[1, 1] : Array Nat).getD k 0 < exM.nrows) := by
+  refine ⟨exM_WF, ?_⟩
+  intro k hk
+  have : k = 0 ∨ k = 1 := by simp [exM] at hk; omega
+  rcases this with rfl | rfl <;> decide
+
+end M4ri.Props.C13
